@@ -63,6 +63,9 @@ pub trait Tree: Sized + Clone + PartialEq + Debug + Serialize + DeserializeOwned
     fn iter_(&self) -> Box<dyn DeIter<Self::T> + '_>;
     fn ref_into_iter_(&self) -> Box<dyn DeIter<Self::T> + '_>;
     fn into_iter_(self) -> Box<dyn DeIter<Self::T>>;
+    /// One overridable iterator operation on the concrete iterator type (`which`: 0 iter(), 1 (&tree).into_iter(),
+    /// 2 clone().into_iter()) after `a` next() and `b` next_back() calls; see iterops.
+    fn iter_op(&self, which: u8, a: usize, b: usize, rest: &[Self::T], op: crate::iterops::IterOp) -> crate::iterops::Out<Self::T>;
 }
 
 macro_rules! tree_sigma {
@@ -136,6 +139,14 @@ macro_rules! impl_tree {
             fn iter_(&self) -> Box<dyn DeIter<$t> + '_> { Box::new(self.0.iter()) }
             fn ref_into_iter_(&self) -> Box<dyn DeIter<$t> + '_> { Box::new((&self.0).into_iter()) }
             fn into_iter_(self) -> Box<dyn DeIter<$t>> { Box::new(self.0.into_iter()) }
+            fn iter_op(&self, which: u8, a: usize, b: usize, rest: &[$t], op: crate::iterops::IterOp) -> crate::iterops::Out<$t> {
+                use crate::iterops::*;
+                match which {
+                    0 => { let mut it = self.0.iter(); advance(&mut it, a); retreat(&mut it, b); apply_de(it, rest, op) }
+                    1 => { let mut it = (&self.0).into_iter(); advance(&mut it, a); retreat(&mut it, b); apply_de(it, rest, op) }
+                    _ => { let mut it = self.0.clone().into_iter(); advance(&mut it, a); retreat(&mut it, b); apply_de(it, rest, op) }
+                }
+            }
         }
     )*};
 }
